@@ -179,11 +179,11 @@ fn emit_lookaround_action_code<W: Write>(
             // at EOF, so taker the lookbehind (end of last
             // pushed token); if that is missing too, then
             // supply default.
-            rust!(rust, "*{}lookahead", grammar.prefix);
+            rust!(rust, "{}lookahead.clone()", grammar.prefix);
         }
         r::LookaroundActionFnDefn::Lookbehind => {
             // take lookbehind or supply default
-            rust!(rust, "*{}lookbehind", grammar.prefix);
+            rust!(rust, "{}lookbehind.clone()", grammar.prefix);
         }
     }
     rust!(rust, "}}");
